@@ -134,7 +134,7 @@ func TestWorlds(t *testing.T) {
 }
 
 func nonTrivial(r *Result) bool {
-	return r.Switches > 1 || r.Probes["conflict"] > 0 || r.Decisions > 3
+	return r.Switches > 1 || r.Probes["conflict"] > 0 || r.Decisions > 3 || r.Probes["nontrivial"] > 0
 }
 
 func search(t *testing.T) {
